@@ -19,6 +19,8 @@ if ROOT not in sys.path:
 
 # property id -> spec modules contributing units
 SPEC_MODULES = {
+    "C04": ["specs.c04_scope"],
+    "C06": ["specs.c04_scope"],
     "C08": ["specs.c08_checkpoints"],
     "C09": ["specs.c09_lock"],
     "C10": ["specs.c10_semaphore", "specs.c10_limiter"],
